@@ -269,7 +269,26 @@ def check_lmtd_guard(ctx: CheckContext, p: Program, r: Resolver, rule: str = "LM
                 for d in disj:
                     if isinstance(d, ast.Compare) and len(d.ops) == 1:
                         l, op, rr = d.left, d.ops[0], d.comparators[0]
-                        names = lambda e: {x.id for x in ast.walk(e) if isinstance(x, ast.Name) and x.id in params}
+                        def names(e):
+                            """the single parameter `e` is a monotone (order-preserving, min-taking) view of, else {}"""
+                            ok_meth = {"round", "min", "astype", "flatten", "ravel", "item"}
+                            ok_np = {"array", "asarray", "min", "amin", "nanmin", "round", "around", "atleast_1d"}
+                            cur = e
+                            while True:
+                                if isinstance(cur, ast.Name):
+                                    return {cur.id} if cur.id in params else set()
+                                if isinstance(cur, ast.Call) and isinstance(cur.func, ast.Attribute):
+                                    if isinstance(cur.func.value, ast.Name) and cur.func.value.id in ("np", "numpy", "math") and cur.func.attr in ok_np and cur.args:
+                                        cur = cur.args[0]
+                                        continue
+                                    if cur.func.attr in ok_meth:
+                                        cur = cur.func.value
+                                        continue
+                                if isinstance(cur, ast.Call) and isinstance(cur.func, ast.Name) and cur.func.id in ("min", "float") and len(cur.args) == 1:
+                                    cur = cur.args[0]
+                                    continue
+                                weak.append(norm_stmt(e))
+                                return set()
                         def zero(e):
                             return isinstance(e, ast.Constant) and isinstance(e.value, (int, float)) and e.value == 0
                         def tiny(e):
